@@ -626,7 +626,7 @@ fn main() {
         .to_string();
 
     edge_cases(&mut out);
-    let (nsmall, ndense) = if args.thorough { (9000, 450) } else { (900, 36) };
+    let (nsmall, ndense) = if args.thorough { (6000, 200) } else { (900, 36) };
     // interleave so that shards cost about the same
     let per = (nsmall / ndense).max(1);
     let mut c = 0u64;
